@@ -23,6 +23,7 @@ RULE = (
 )
 ASSUMPTIONS = [
     "Names that occur only inside nested def / lambda / comprehension scopes are not in f's own symbol table and are not asserted either way; a closure variable of f that only a nested def or class body reads IS asserted (it is free in f), one that is merely declared nonlocal and never used is not.",
+    "Iteration variables of comprehensions are the comprehension's own and are not asserted (CPython 3.12 inlines comprehensions, so symtable lists them among f's locals, but they are not visible in f).",
     "Names that f mentions only inside annotations are not asserted either way: Python does not evaluate the annotations of parameters and local variables when f runs, so they are not names the body reads (symtable lists them as referenced).",
     "Python's symtable is the arbiter of scoping; a name declared `global` in f is 'external' even when f assigns it.",
 ]
@@ -85,6 +86,38 @@ def annotation_only_names(src):
                 in_ann.add(n.id)
     elsewhere = {n.id for n in ast.walk(fdef) if isinstance(n, ast.Name) and id(n) not in ann_ids}
     return in_ann - elsewhere
+
+
+def comprehension_only_names(src):
+    """Names that f binds only as iteration variables of comprehensions.  They are the comprehension's
+    own (not visible in f after it), although CPython 3.12 inlines comprehensions and symtable then
+    lists them among f's locals."""
+    import ast
+
+    tree = ast.parse(src)
+    fdef = next((n for n in ast.walk(tree) if isinstance(n, ast.FunctionDef) and n.name == "f"), None)
+    if fdef is None:
+        return set()
+    comp_ids, comp_names = set(), set()
+    for node in ast.walk(fdef):
+        if isinstance(node, (ast.ListComp, ast.SetComp, ast.DictComp, ast.GeneratorExp)):
+            own = {n.id for g in node.generators for n in ast.walk(g.target) if isinstance(n, ast.Name)}
+            comp_names |= own
+            for n in ast.walk(node):
+                if isinstance(n, ast.Name) and n.id in own:
+                    comp_ids.add(id(n))
+    def own(node):
+        # f's own scope: nested functions, lambdas and classes are other scopes
+        for ch in ast.iter_child_nodes(node):
+            if isinstance(ch, (ast.FunctionDef, ast.AsyncFunctionDef, ast.Lambda, ast.ClassDef)):
+                continue
+            yield ch
+            yield from own(ch)
+
+    elsewhere = {n.id for n in own(fdef) if isinstance(n, ast.Name) and id(n) not in comp_ids}
+    a = fdef.args
+    elsewhere |= {x.arg for x in [*a.posonlyargs, *a.args, a.vararg, *a.kwonlyargs, a.kwarg] if x is not None}
+    return comp_names - elsewhere
 
 
 def definition_time_only_names(src):
@@ -166,7 +199,7 @@ def check_program(m, mod, res, case_base, icount):
     f = mod.f
     orig = f.__code__
     provs = set()
-    ann_only = annotation_only_names(m["src"])
+    ann_only = annotation_only_names(m["src"]) | comprehension_only_names(m["src"])
     for sym in tab.get_symbols():
         name = sym.get_name()
         if name.startswith("."):
